@@ -53,6 +53,11 @@ pub fn fetch_add_u64(a: &mut u64, v: u64) -> (prev: u64)
 pub fn fetch_max_u64(a: &mut u64, v: u64) -> (prev: u64)
     ensures prev == *old(a), *final(a) == (if *old(a) >= v { *old(a) } else { v })
 { let p = *a; if v > p { *a = v; } p }
+// R8: AtomicU64::compare_exchange(current, new, ..), sequentially
+pub fn cas_u64(a: &mut u64, current: u64, new: u64) -> (r: Result<u64, u64>)
+    ensures *old(a) == current ==> r == Ok::<u64, u64>(current) && *final(a) == new,
+        *old(a) != current ==> r == Err::<u64, u64>(*old(a)) && *final(a) == *old(a)
+{ if *a == current { *a = new; Ok(current) } else { Err(*a) } }
 impl Bytes {
     #[verifier::external_body]
     pub fn len(&self) -> (r: usize) ensures r == self@.len() { unimplemented!() }
